@@ -565,6 +565,7 @@ func (vfs *MemFS) OpenFile(name string, flag int, perm fs.FileMode) (avfs.File, 
 				nd:       child,
 				vfs:      vfs,
 				name:     name,
+				absPath:  pi.Path(),
 				openMode: om,
 			}
 
@@ -606,6 +607,7 @@ func (vfs *MemFS) OpenFile(name string, flag int, perm fs.FileMode) (avfs.File, 
 		nd:       child,
 		vfs:      vfs,
 		name:     name,
+		absPath:  pi.Path(),
 		openMode: om,
 	}
 
